@@ -45,6 +45,19 @@ def gen_case(rng):
             elif created < n: pending.insert(0, r); ops.append(['create', created]); created += 1
     return {'model': m, 'views': views, 'ops': ops}
 
+def view_corpus():
+    """fixed view cases: a Finnis-Sinclair model with a species that only occurs in [EAM-Density] entries (no pair, no embedding function),
+    looked at through an include set that leaves it out and through an exclude set that names it"""
+    out = []
+    for k, (mode, pick) in enumerate([('include', 'first'), ('exclude', 'extra'), ('include', 'all_but_extra')]):
+        g = random.Random(1350 + k); m = sc.gen_model(g, kind='fs')
+        dsec = [es for s_, es in m['sections'] if s_[0] == 'EAM-Density'][0]
+        a = m['els'][0]
+        dsec.append({'key': ('fs', 'Zz', a), 'val': 'as.bornmayer 2.0 0.5', 'sp': k}); dsec.append({'key': ('fs', a, 'Zz'), 'val': 'as.bornmayer 3.0 0.5', 'sp': 0})
+        S = {'first': [a], 'extra': ['Zz'], 'all_but_extra': list(m['els'])}[pick]
+        out.append({'model': m, 'views': [[mode, S]], 'ops': [['create', 0], ['read', 0]]})
+    return out
+
 def which_prop(m):
     return {'pair': ['pair'], 'eam': ['pair', 'eam_embed', 'eam_density'], 'fs': ['pair', 'eam_embed', 'eam_density_fs']}[m['kind']]
 
@@ -70,7 +83,7 @@ def run_impl(case):
 SECT_OF = {'pair': 'Pair', 'eam_embed': 'EAM-Embed', 'eam_density': 'EAM-Density', 'eam_density_fs': 'EAM-Density'}
 def correspond(ctx):
     rng = ctx['rng']
-    cases = [gen_case(rng) for _ in range(300 if ctx['thorough'] else 90)]
+    cases = view_corpus() + [gen_case(rng) for _ in range(300 if ctx['thorough'] else 90)]
     pcases = potable_corpus() + [gen_potable(rng) for _ in range(60 if ctx['thorough'] else 14)]
     exprs, tabs, dis = [], [], []
     for c in cases:
@@ -172,6 +185,7 @@ def oracle(case):
     return []
 
 def search_cases(rng, n):
+    for c in view_corpus(): yield c
     for c in potable_corpus(): yield c
     for k in range(n // 4):
         yield gen_case(rng)
